@@ -17,6 +17,8 @@ pub fn benign(k: &str, n: usize) -> Vec<Value> {
         "==" | "!=" | "===" | "!==" => take(vec![json!(1)]),
         "!" | "!!" => take(vec![json!(1)]),
         "<" | "<=" | ">" | ">=" => take(vec![json!(1), json!(2), json!(3)]),
+        // 2 * 2 * ... leaves the double range beyond 1023 factors: long products are of ones
+        "*" if n > 1000 => take(vec![json!(1)]),
         "+" | "*" | "max" | "min" => take(vec![json!(2)]),
         "-" => take(vec![json!(3), json!(1)]),
         "/" | "%" => take(vec![json!(4), json!(2)]),
@@ -92,8 +94,46 @@ pub fn run(ctx: &mut Ctx) {
             }
         }
     }
+    // a wrong count nested in every operand position of every host operator: wherever the reference
+    // evaluates that operand, the whole rule is an error (no host skips, defaults or swallows it)
+    {
+        let mut bad: Vec<Value> = Vec::new();
+        for k in OPS {
+            let mut c = 0;
+            for n in 0..=5usize {
+                if !refmodel::arity_ok(k, n) && c < 2 {
+                    bad.push(op(k, benign(k, n)));
+                    c += 1;
+                }
+            }
+        }
+        for h in OPS {
+            for n in 1..=3usize {
+                if !refmodel::arity_ok(h, n) {
+                    continue;
+                }
+                if !ctx.mine() {
+                    continue;
+                }
+                for p in 0..n {
+                    for b in &bad {
+                        ctx.edge();
+                        let mut args = benign(h, n);
+                        args[p] = b.clone();
+                        let r = op(h, args);
+                        let o = ctx.exec(&r, &ds[1]);
+                        let (exp, _) = refmodel::reference(&r, &ds[1]);
+                        let must_err = matches!(exp, refmodel::Exp::Err);
+                        ctx.record("reject:nested:every-host", &r, &ds[1], &o, if must_err { verdict(false, false, &o) } else { None });
+                    }
+                }
+            }
+        }
+    }
     // size probes: operand counts well above the enumerated 0..6
-    for n in al::size_classes(ctx.tier_thorough) {
+    let mut counts = al::size_classes(ctx.tier_thorough);
+    counts.extend([258usize, 511, 512, 513, 514, 65535, 65536, 65537, 65538]);
+    for n in counts {
         if !ctx.mine() {
             continue;
         }
